@@ -70,6 +70,8 @@ structure Op where
   desc : Bool
   src : Option String
   dst : Option String
+  keyPath : Option Path := none      -- filled from the record's "in" (parsed by the real key parser)
+  newKeyPath : Option Path := none
 
 def decOp (j : Json) : Except String Op := do
   let board := match getStrs j "board" with | .ok b => b | .error _ => []
@@ -107,8 +109,6 @@ def describe (op : Op) : String :=
 def report (op : Op) (cs : List Clause) : Option Verdict :=
   (firstFailing cs).map fun c => specfalse c (describe op)
 
-/-- naive split of a key on dots (the generators never put a dot inside a quoted name) -/
-def splitKey (k : String) : Path := k.splitOn "."
 
 def sameBoards (xs ys : List ObsBoard) : Bool :=
   xs.length == ys.length && xs.all fun x =>
@@ -146,7 +146,9 @@ def handleC37 (op : Op) (o : Json) : Except String Verdict := do
   if oc != "ok" then return .ok
   let before ← decBoards o "before"
   let after ← decBoards o "after"
-  let some bb := findBoard before op.board | return .bad "target board missing before"
+  let some bb := findBoard before op.board |
+    -- the oracle accepted an edit on a board that does not exist (e.g. a move of a key onto itself): nothing may change
+    return (if sameBoards before after then .ok else specfalse "edit-on-missing-board-changed-graph" (describe op))
   let some ab := findBoard after op.board | return specfalse "target-board-lost" (describe op)
   let b := bb.board.g
   let a := ab.board.g
@@ -170,10 +172,15 @@ def handleC37 (op : Op) (o : Json) : Except String Verdict := do
     let tgt := match resolve ab op.target with
       | .none => resolve bb op.target
       | t => t
-    let also := if op.tag.isSome then ["shape", "language"] else []
+    -- a block-string label carries its language and makes the shape `text`; replacing one reverts both
+    let hadLang := match resolve bb op.target with
+      | .obj p => (b.findObj p).any fun x => (attrOf x.attrs "language").isSome
+      | .edge s t sa da i => (b.findEdge s t sa da i).any fun x => (attrOf x.attrs "language").isSome
+      | .none => false
+    let also := if op.tag.isSome || (hadLang && op.attr == "label") then ["shape", "language"] else []
     if let some v := report op (setClauses b a tgt op.attr op.value also) then return v
     -- refinement (only when the target existed; otherwise the Set is a Create followed by a Set)
-    if op.tag.isNone then
+    if also.isEmpty then
       match tgt, resolve bb op.target with
       | .obj p, .obj _ =>
         let v := if op.attr == "label" then (a.findObj p).map (·.label) else (a.findObj p).bind fun x => attrOf x.attrs op.attr
@@ -194,13 +201,24 @@ def handleC38 (op : Op) (o : Json) : Except String Verdict := do
   if oc != "ok" then return .ok
   let before ← decBoards o "before"
   let after ← decBoards o "after"
-  let some bb := findBoard before op.board | return .bad "target board missing before"
+  let some bb := findBoard before op.board |
+    -- the oracle accepted an edit on a board that does not exist (e.g. a move of a key onto itself): nothing may change
+    return (if sameBoards before after then .ok else specfalse "edit-on-missing-board-changed-graph" (describe op))
   let some ab := findBoard after op.board | return specfalse "target-board-lost" (describe op)
   let b := bb.board.g
   let a := ab.board.g
   if op.attr != "" then
     let tgt := resolve bb op.target
-    if let some v := report op (deleteAttrClauses b a tgt op.attr true) then return v
+    -- `deleteReserved` implements style.*, near, tooltip, icon, width, height, left, top, link (and the fields of
+    -- connections); a delete of `label` / `shape` is accepted but does nothing: reported under its own signature
+    let supportedObj := op.attr.startsWith "style." || ["near", "tooltip", "icon", "width", "height", "left", "top", "link"].contains op.attr
+    let unsupported := match tgt with
+      | .obj _ => !supportedObj
+      | _ => op.attr == "label"
+    if let some v := report op (deleteAttrClauses b a tgt op.attr (!unsupported)) then return v
+    if unsupported then
+      if let some c := firstFailing (deleteAttrClauses b a tgt op.attr true) then
+        return specfalse s!"{c}-unsupported-attribute" (describe op)
     return .ok
   match resolve bb op.key with
   | .none =>
@@ -227,7 +245,9 @@ def handleC39 (op : Op) (o : Json) : Except String Verdict := do
   if oc != "ok" then return .ok
   let before ← decBoards o "before"
   let after ← decBoards o "after"
-  let some bb := findBoard before op.board | return .bad "target board missing before"
+  let some bb := findBoard before op.board |
+    -- the oracle accepted an edit on a board that does not exist (e.g. a move of a key onto itself): nothing may change
+    return (if sameBoards before after then .ok else specfalse "edit-on-missing-board-changed-graph" (describe op))
   let some ab := findBoard after op.board | return specfalse "target-board-lost" (describe op)
   let b := bb.board.g
   let a := ab.board.g
@@ -235,7 +255,7 @@ def handleC39 (op : Op) (o : Json) : Except String Verdict := do
   | .obj x =>
     if !b.uniqueLabels then return .ok
     if !a.uniqueLabels then return specfalse "labels-duplicated" (describe op)
-    let dest : Path := if op.kind == "rename" then x.dropLast ++ [op.newName] else splitKey op.newKey
+    let dest : Path := if op.kind == "rename" then x.dropLast ++ [op.newName] else op.newKeyPath.getD []
     let cross := !samePath dest.dropLast x.dropLast
     let withDesc := op.kind == "rename" || op.desc || !cross
     if op.kind == "move" && op.key == op.newKey then
@@ -272,8 +292,9 @@ def decDeltas (d : Json) : Except String (List (String × String)) := do
     | [k, v] => pure ((← k.getStr?), (← v.getStr?))
     | _ => throw "delta pair"
 
-def handleC40 (op : Op) (o : Json) : Except String Verdict := do
+def handleC40 (j : Json) (op : Op) (o : Json) : Except String Verdict := do
   let oc ← getStr o "outcome"
+  if oc == "fatal" && (o.getObjVal? "deltas").toOption.isNone then return .ok   -- the edit itself died: C39's stream
   let d ← getObj o "deltas"
   let doc ← getStr d "outcome"
   if doc == "panic" || doc == "fatal" then
@@ -281,11 +302,14 @@ def handleC40 (op : Op) (o : Json) : Except String Verdict := do
   if optBool d "mutated" then
     return specfalse s!"deltas-mutated-graph-{op.kind}" (describe op)
   if oc != "ok" then return .ok
+  if doc == "err" && (← getStrs (← getObj j "in") "feat").contains "no-such-board" then return .ok
   if doc == "err" then
     return specfalse s!"deltas-refused-edit-succeeded-{op.kind}" s!"{describe op}: {(optStr d "err").getD ""}"
   let before ← decBoards o "before"
   let after ← decBoards o "after"
-  let some bb := findBoard before op.board | return .bad "target board missing before"
+  let some bb := findBoard before op.board |
+    -- the oracle accepted an edit on a board that does not exist (e.g. a move of a key onto itself): nothing may change
+    return (if sameBoards before after then .ok else specfalse "edit-on-missing-board-changed-graph" (describe op))
   let some ab := findBoard after op.board | return specfalse "target-board-lost" (describe op)
   if !bb.board.g.uniqueLabels || !ab.board.g.uniqueLabels then return .ok
   let dm ← decDeltas d
@@ -320,7 +344,8 @@ def handleEdit (prop : String) (j : Json) : Except String Verdict := do
   if k == "evolve" then return .skip "evolve"
   let i ← getObj j "in"
   let o ← getObj j "out"
-  let op ← decOp (← getObj i "op")
+  let op0 ← decOp (← getObj i "op")
+  let op : Op := { op0 with keyPath := (getStrs i "keyPath").toOption, newKeyPath := (getStrs i "newKeyPath").toOption }
   let oc ← getStr o "outcome"
   if oc == "precompile-error" then return .skip "precompile-error"
   match prop with
@@ -328,7 +353,7 @@ def handleEdit (prop : String) (j : Json) : Except String Verdict := do
   | "C37" => handleC37 op o
   | "C38" => handleC38 op o
   | "C39" => handleC39 op o
-  | "C40" => handleC40 op o
+  | "C40" => handleC40 j op o
   | "C41" => handleC41 op o
   | _ => throw "unknown property"
 
